@@ -376,6 +376,9 @@ def main(argv):
                 fails = {k: v for k, v in fails.items() if k == idx}
             for idx, codes in sorted(fails.items()):
                 c = cases[idx]
+                if os.environ.get("VERIF_DEBUG"):
+                    log("FAIL", idx, codes, c.get("kf"), json.dumps(c.get("input"), default=str, ensure_ascii=False)[:300],
+                        json.dumps(c.get("impl"), default=str, ensure_ascii=False)[:300], c.get("impl_fail"))
                 kf = [e for e in known if e["id"] in (c.get("kf") or [])]
                 if kf:
                     for e in kf:
